@@ -32,7 +32,7 @@ func c14Universe() []c14key {
 	c14Keys = []c14key{
 		{"(quote a)", "sym:a"}, {"(quote b)", "sym:b"}, {`"a"`, "str:a"}, {`"b"`, "str:b"}, {"1", "int:1"}, {"2", "int:2"}, {"[1]", "int:1"}, {"'x'", "char:x"},
 		{strconv.FormatInt(symnumA, 10), "int:" + strconv.FormatInt(symnumA, 10)}, // shares a bucket with symbol a
-		{strconv.Itoa(hs), "int:" + strconv.Itoa(hs)},                              // shares a bucket with string "a"
+		{strconv.Itoa(hs), "int:" + strconv.Itoa(hs)},                             // shares a bucket with string "a"
 	}
 	return c14Keys
 }
